@@ -269,17 +269,22 @@ func (a *aclList) AddRawRecord(rawRec *consensusproto.RawRecordWithId) (err erro
 	if err = copyState.ApplyRecord(record); err != nil {
 		return
 	}
-	a.setState(copyState)
-	a.records = append(a.records, record)
-	a.indexes[record.Id] = len(a.records) - 1
+	// persisting first: the new state is published only when the record is stored, otherwise the
+	// list would advertise a head the storage doesn't have and refuse the same record on a retry
 	storageRec := StorageRecord{
 		RawRecord:  rawRec.Payload,
 		PrevId:     record.PrevId,
 		Id:         record.Id,
-		Order:      len(a.records),
+		Order:      len(a.records) + 1,
 		ChangeSize: len(rawRec.Payload),
 	}
-	return a.storage.AddAll(context.Background(), []StorageRecord{storageRec})
+	if err = a.storage.AddAll(context.Background(), []StorageRecord{storageRec}); err != nil {
+		return
+	}
+	a.setState(copyState)
+	a.records = append(a.records, record)
+	a.indexes[record.Id] = len(a.records) - 1
+	return
 }
 
 func (a *aclList) setState(state *AclState) {
